@@ -49,6 +49,10 @@ CHECKS = {
    text="Fault enumeration on the stream seam: generated state sets and planner-data graphs (geometric, and with controls and durations) over generated nested state spaces (R^n, SO(2), SO(3), SE(2), SE(3), time, discrete, weighted compounds up to depth 3) are stored through a simulated ostream and loaded through a simulated istream. Fault-free: the loaded set / graph must equal the original element by element (equalStates and bitwise serialisation, tags, start/goal marks, edge weights, controls, durations). Faulted: truncation at EVERY byte offset of every generated archive (enumerated), short reads of 1/2/7 bytes per refill (must be invisible), disk full on the write side at sampled offsets, overwritten archive marker, loading into a space with a different signature: the load must be reported (false / WARN-ERROR message) and what the object then holds must be an exact prefix of the original; no exception may escape; ASan/UBSan clean.",
    note="Trusted: the harness streambufs and comparison code. 'Reported' for StateStorage (void load) means a WARN/ERROR log message. Leaks on the rejected path are outside the statement (LSan off). In-memory copy/clone/serialize/reals/partial-copy round trips are a rider on the simulated state stream (pure functions). A streambuf that throws is not among the corruptions the statement lists and is not injected.",
    technique="deterministic simulation: enumeration of the truncation offset per archive + sampled write-side and substitution faults on simulated streams, reference comparison, shrinking + replay"),
+ "C20": dict(engine="plansim", cat="exploration", ref="DESIGN.md 4/C20",
+   text="Seeded search in which the faults are everything that must NOT matter (F9): each case (single-threaded geometric planner, round-robin over 33; generated world, knobs, nearest-neighbour structure, seed; one or two solves cancelled by an evaluation-count termination condition) is executed in three SEPARATELY STARTED processes (exec, so the seed is set before any RNG exists): ASLR off without padding; ASLR on with 1-900 heap pre-allocations of random sizes and up to 6 kB of extra environment; ASLR on with 1-3000 pre-allocations, up to 20 kB of environment and unrelated earlier work in the process (spaces, states, problem definitions; no RNG). Each prints the hash of (statuses, PTC evaluation counts, validity-call counts, every solution path state, 48 draws + 3 Gaussians of the next three RNGs created); the three lines must be identical. Also: setLocalSeed(s) after arbitrary use (cached second Gaussian, quaternion, spherical generators) reproduces the stream of a fresh RNG(s).",
+   note="Trusted: the process launcher and the hash. Planners that own threads are excluded by the statement (they are made reproducible by the scheduler in C19-B). Control and multilevel planners are not in the registry of this engine yet. A run that crashes or exhausts its deterministic step budget is counted inconclusive here (crashes are C03's).",
+   technique="deterministic simulation: cross-process replay of seeded cases under address-layout / heap / environment / history perturbations, hash comparison, shrinking + replay"),
  "C10": dict(engine="dssim", cat="exploration", ref="DESIGN.md 4/C10",
    text="Seeded search over op histories (add/add(vector)/remove/clear/nearest/nearestK/nearestR/list) on the real GNAT, GNAT-no-thread-safety, linear and sqrt-approx structures with swarm-chosen tree parameters, exact-tie metrics and simulator-owned pivot draws (hook H1), refined op by op against a brute-force reference model, under ASan/UBSan. Sampling, not enumeration: a clean run is evidence.",
    note="Trusted: the harness's metric functions and brute-force model (~60 lines). Assumes a single caller thread (concurrency is C19).",
@@ -87,7 +91,7 @@ def main():
         else:
             na.append(dict(property_id=pid, reason=PENDING.get(pid, "not claimed yet: the check for this property is designed (DESIGN.md 4) but not built/registered at this commit")))
     engines = [
-        dict(name="plansim", path="engines/plansim.cpp", serves_properties=["C01", "C03", "C04", "C19"],
+        dict(name="plansim", path="engines/plansim.cpp", serves_properties=["C01", "C03", "C04", "C19", "C20"],
              kind_free_text="whole real planners on generated worlds, one forked child per case, cancellation at chosen PTC evaluation, op histories"),
         dict(name="ptcsim", path="engines/ptcsim.cpp", serves_properties=["C18"],
              kind_free_text="termination-condition histories under the seeded scheduler and simulated clock vs a reference model"),
